@@ -13,6 +13,10 @@ equals the real one and the image equals the mirror unit for unit, otherwise the
 Afterwards the model adopts the mirror (one defect is reported once; the buffer is dropped and
 `bitmap_blocks` is what a write-back leaves).
 
+  fspd variant <dd> <pl> <bc> <fh>                     → ok   (0/1 each: which repairs the real source contains, probed by
+                                                          the harness on the real code: directory delete follows the chain,
+                                                          put size limits, ⌈total/4096⌉ bitmap blocks, hole in index slot 0;
+                                                          every other request answers `need-variant` until this was sent)
   fspd format <volname> <time> <cmp|nocmp> <real>      → ok | bad …   (blank image of the mirror's size; block 0 — boot
                                                           code — is taken from the mirror; `nocmp`: do not compare)
   fspd put <path> <fstype> <aux> <access> <eof> <time> <real> <chunks>   → ok | bad … | need-format
@@ -34,6 +38,8 @@ open A2Verif.Fs.Prodos
 
 structure St where
   disk : Option Disk := none
+  /-- the variant of the source the real code was probed to be (`fspd variant`) -/
+  rp : Option Repairs := none
   deriving Inhabited
 
 def eqBytes : List Nat → List Nat → Bool
@@ -89,14 +95,15 @@ def resTok {α : Type} (r : R α) : String :=
 
 /-- the disk the real object is in after `get_img()`: the mirrored image, the buffer dropped by the write-back,
 `bitmap_blocks` as the last `open_bitmap_buffer` left it -/
-def adopt (mirror : Raw) : Disk :=
+def adopt (mirror : Raw) (rp : Repairs) : Disk :=
   let total := mirror.units.size
   let bptr := le16 (mirror.units[2]?.getD []) (4 + 35)
-  { raw := mirror, total := total, bitmap := none, bitmapBlocks := List.range' bptr (bitmapBlockCount total) }
+  let d0 : Disk := { raw := mirror, total := total, bitmap := none, bitmapBlocks := [], src := rp }
+  { d0 with bitmapBlocks := List.range' bptr d0.bmCount }
 
 /-- the disk right after `from_img` on a blank image -/
-def fresh (n : Nat) : Disk :=
-  { raw := { unitLen := 512, units := Array.replicate n (List.replicate 512 0) }, total := n, bitmap := none, bitmapBlocks := [] }
+def fresh (n : Nat) (rp : Repairs) : Disk :=
+  { raw := { unitLen := 512, units := Array.replicate n (List.replicate 512 0) }, total := n, bitmap := none, bitmapBlocks := [], src := rp }
 
 /-- `none` = result class and written-back image agree with the real ones, otherwise the first difference -/
 def disagreement {α : Type} (mirror : Raw) (real : String) (out : R α × Disk) : Option String :=
@@ -110,19 +117,8 @@ def disagreement {α : Type} (mirror : Raw) (real : String) (out : R α × Disk)
       | none => none
 
 /-- compare result class and written-back image; adopt the mirror -/
-def verdict {α : Type} (mirror : Raw) (real : String) (out : R α × Disk) : St × String :=
-  ({ disk := some (adopt mirror) }, (disagreement mirror real out).getD "ok")
-
-/-- an operation of which the model carries the source as written and as repaired (`Repairs`): `ok` if either
-variant agrees with the real code, otherwise the disagreement of the as-written variant -/
-def verdict2 {α : Type} (mirror : Raw) (real : String) (run : Repairs → R α × Disk) : St × String :=
-  let st' : St := { disk := some (adopt mirror) }
-  match disagreement mirror real (run {}) with
-  | none => (st', "ok")
-  | some why =>
-    match disagreement mirror real (run { dirDelete := true, putLimits := true }) with
-    | none => (st', "ok")
-    | some _ => (st', why)
+def verdict {α : Type} (st : St) (rp : Repairs) (mirror : Raw) (real : String) (out : R α × Disk) : St × String :=
+  ({ st with disk := some (adopt mirror rp) }, (disagreement mirror real out).getD "ok")
 
 /-- state of the backward scan of a chunk list `i:hex,i:hex,…` -/
 inductive PSt where
@@ -214,22 +210,33 @@ def query (prev : Option Vol) (disk : Disk) (item : String) : String :=
     | none => "bad-request"
   | _ => "bad-request"
 
+def bit (s : String) : Option Bool := if s == "1" then some true else if s == "0" then some false else none
+
 def handle (mirror : Raw) (prev : Option Vol) (st : St) (toks : List String) : St × String :=
+  match toks with
+  | ["variant", a, b, c, d] =>
+    match bit a, bit b, bit c, bit d with
+    | some a, some b, some c, some d => ({ st with rp := some { dirDelete := a, putLimits := b, bitmapCeil := c, firstHole := d } }, "ok")
+    | _, _, _, _ => (st, "bad-request")
+  | _ =>
+  match st.rp with
+  | none => (st, "need-variant")
+  | some rp =>
   match toks with
   | ["format", vn, time, cmp, real] =>
     match Hex.ofHex vn, Hex.ofHex time with
     | some vn, some time =>
-      let out := format vn (mirror.units[0]?.getD []) time (fresh mirror.units.size)
-      if cmp == "cmp" then verdict mirror real out
+      let out := format vn (mirror.units[0]?.getD []) time (fresh mirror.units.size rp)
+      if cmp == "cmp" then verdict st rp mirror real out
       else
         -- the mirror is already one operation further: keep the model's own formatted disk (written back)
         match out with
         | (.ok _, d') => match d'.flush with
-          | (.ok _, d'') => ({ disk := some d'' }, "ok")
+          | (.ok _, d'') => ({ st with disk := some d'' }, "ok")
           | (.error e, _) => (st, s!"bad flush {e.token}")
         | (.error e, _) => (st, s!"bad result model=err:{e.token} real={real}")
     | _, _ => (st, "bad-request")
-  | ["sync"] => ({ disk := some (adopt mirror) }, "ok")
+  | ["sync"] => ({ st with disk := some (adopt mirror rp) }, "ok")
   | _ =>
     match st.disk with
     | none => (st, "need-format")
@@ -238,31 +245,31 @@ def handle (mirror : Raw) (prev : Option Vol) (st : St) (toks : List String) : S
       | ["put", path, fstype, aux, access, eof, time, real, cs] =>
         match Hex.ofHex path, Hex.ofHex fstype, Hex.ofHex aux, Hex.ofHex access, eof.toNat?, Hex.ofHex time, parseChunks cs with
         | some path, some fstype, some aux, some access, some eof, some time, some cs =>
-          verdict2 mirror real (fun rp => put { fullPath := path, fsType := fstype, aux := aux, access := access, eof := eof, chunks := cs } time rp disk)
+          verdict st rp mirror real (put { fullPath := path, fsType := fstype, aux := aux, access := access, eof := eof, chunks := cs } time rp disk)
         | _, _, _, _, _, _, _ => (st, "bad-request")
       | ["delete", path, real] =>
         match Hex.ofHex path with
-        | some path => verdict2 mirror real (fun rp => delete path rp disk)
+        | some path => verdict st rp mirror real (delete path rp disk)
         | none => (st, "bad-request")
       | ["lock", path, real] =>
         match Hex.ofHex path with
-        | some path => verdict mirror real (lock path disk)
+        | some path => verdict st rp mirror real (lock path disk)
         | none => (st, "bad-request")
       | ["unlock", path, real] =>
         match Hex.ofHex path with
-        | some path => verdict mirror real (unlock path disk)
+        | some path => verdict st rp mirror real (unlock path disk)
         | none => (st, "bad-request")
       | ["rename", path, new, real] =>
         match Hex.ofHex path, Hex.ofHex new with
-        | some path, some new => verdict mirror real (rename path new disk)
+        | some path, some new => verdict st rp mirror real (rename path new disk)
         | _, _ => (st, "bad-request")
       | ["retype", path, code, aux, real] =>
         match Hex.ofHex path, optNat code, optNat aux with
-        | some path, some code, some aux => verdict mirror real (retype path code aux disk)
+        | some path, some code, some aux => verdict st rp mirror real (retype path code aux disk)
         | _, _, _ => (st, "bad-request")
       | ["mkdir", path, time, real] =>
         match Hex.ofHex path, Hex.ofHex time with
-        | some path, some time => verdict mirror real (mkdir path time disk)
+        | some path, some time => verdict st rp mirror real (mkdir path time disk)
         | _, _ => (st, "bad-request")
       | ["get", path] => (st, query prev disk ("get=" ++ path))
       | ["free"] => (st, query prev disk "free")
